@@ -9,6 +9,11 @@ Correspondence (Float instance of the model vs the real code, rebuilt from the w
   metrics.pit               random=True with the jitter re-drawn from the same numpy seed, random=False
                             (scipy percentileofscore kind="rank"), pseudo flag
   metrics.cramer_von_mises_test / anderson_darling_test / alpha   the statistic; AD accept/reject
+  entry points as a whole (Model/C10Entry.lean): metrics.pit (layouts of obs / ens, kind = rank, weak, strict, mean, NaN
+                            members, filter, error kinds), metrics.alpha (double filter, type CV / AD / KS / other),
+                            metrics.dscore (obs [n] / [n,1] / [1,n], sim [n] / [n,1] / [n,p], length mismatch),
+                            c_hydrodiy_stat.ensrank on caller-owned buffers as operation lists (replies and final
+                            buffers bit for bit; rejected calls leave the buffers), the rounded formulas with rnd = id
 Oracle (real code only, independent of the model): F and ranks against the Weigel-Mason pairwise definition by
 brute force; D = (Pearson of observation ranks and Weigel-Mason ranks + 1)/2, in [0, 1], 1 / 0 for perfectly /
 inversely ordered forecasts; D unchanged by strictly increasing maps (exp, arctan, cubic, affine - checked to be
@@ -28,7 +33,12 @@ out of place); malformed calls (eps < 1e-20, no columns, no rows). PIT: n = 1..3
 the members' grid (exact ties, resolved by the jitter), at small magnitudes and as large-magnitude affine images
 (1e4 .. 1e12, gaps far above the jitter but below 1e-10 x |value|), cst in [0, 0.5] and above (clamped), censoring thresholds
 on and off the grid. Uniform samples: 1..300 values in (0, 1) incl. ties and values within 1e-12 of the ends,
-shuffled; rejection stream with -0.1, 1.5, 1+2^-52, -1e-300, NaN, +-inf at random positions.
+shuffled; clusters of DISTINCT values 1 ulp .. 1e-6 apart (no separation condition on uniform samples), reversed / shuffled /
+last two swapped; rejection stream with -0.1, 1.5, 1+2^-52, -1e-300, NaN, +-inf at random positions. Entry points: pit on
+obs as scalar / [n] / [n,1] / [1,n] / 2-d, ens as [n,m] / [m], the four kinds, NaN members / observations / rows, length
+mismatch; alpha with NaN rows and an unknown type; dscore on every documented layout and mismatched lengths; operation
+lists of 2..6 steps on the kernel's output buffers (calls, calls rejected for eps or an empty dimension, scribbles,
+buffers of another shape). Excluded points: forecasts closer than the tie tolerance (run, ranks sum and range only).
 A case is non-trivial when the call is accepted and returns a finite value from a non-degenerate input.
 """
 import itertools
@@ -234,6 +244,25 @@ def reorder(rng, xs, how=None):
 
 ORDERS = ["shuffle", "sorted", "reversed", "swap_last", "min_last", "rotate", "one_out"]
 
+NEAR_GAPS = ["ulp", "ulp", 2.0 ** -52, 1e-15, 1e-13, 1e-12, 1e-10, 2e-9, 9e-9, 1.1e-8, 1e-7, 1e-6]
+
+
+def near_clusters(rng, n):
+    """n values of (0, 1) in clusters of 2..5 DISTINCT values that are 1 ulp .. 1e-6 apart (ascending inside a
+    cluster, clusters in random order; the caller re-orders)"""
+    x = []
+    while len(x) < n:
+        c = rng.uniform(0.02, 0.98)
+        g = rng.choice(NEAR_GAPS)
+        k = min(n - len(x), rng.choice([2, 2, 3, 5]))
+        if g == "ulp":
+            for _ in range(k):
+                x.append(c)
+                c = math.nextafter(c, 1.0)
+        else:
+            x += [c + j * g for j in range(k)]
+    return x
+
 
 def wm_pairs_sorted(sim):
     """same quantity as wm_pairs, from counts in the sorted second ensemble (for large ensembles)"""
@@ -379,6 +408,9 @@ def body(ctx):
             ctx.finding("dscore/external/argsort_not_a_ranking", "np.argsort(np.argsort(obs)) is not a ranking of obs", {**jc})
         if np.array_equal(onp, ost):
             add(f"dscore {C.f2h(eps)} {m} {C.flist(obs)} {rowstr(sim)}", "dscore", D, jc)
+            if len(reqs) % 3 == 0:
+                # the same score through the model's clip + (r+1)/2 step written with explicit rounding (rnd = id)
+                add(f"dscoref {C.f2h(eps)} {m} {C.flist(obs)} {rowstr(sim)}", "dscore", D, jc)
             ctx.hist["dscore/obs_ranks_by_model"] = ctx.hist.get("dscore/obs_ranks_by_model", 0) + 1
         else:
             # tied observations: how np.argsort breaks the ties is external (unspecified by numpy, not constrained by the
@@ -623,6 +655,9 @@ def body(ctx):
             if random_:
                 add(f"pitr {C.f2h(cst)} {C.f2h(obs[i])} {C.f2h(dobs[i])} {C.flist(ens[i])} {C.flist(dens[i])}",
                     "pit", float(pits[i]), {**case, "i": i})
+                # the formula with explicit rounding (rnd = id in the driver), on the count the jitter gives
+                cnt_i = int(np.sum(ens[i] + dens[i] - (obs[i] + dobs[i]) < 0))
+                add(f"pitfr {C.f2h(cst)} {cnt_i} {m}", "pit", float(pits[i]), {**case, "i": i, "count": cnt_i})
                 # oracle, independent of how the code draws its jitter (the replayed draws above serve the model
                 # correspondence only): members further than 2 EPS from the observation are counted for sure, members
                 # within 2 EPS may fall on either side. The count implied by the PIT value must be an integer between
@@ -647,6 +682,8 @@ def body(ctx):
                 right = int(np.sum(ens[i] <= obs[i]))
                 cnts.append((left, right - left))
             add(f"sudo {C.f2h(EPS_PIT)} {C.f2h(censor)} {C.f2h(obs[i])} {C.flist(ens[i])}", "sudo",
+                "true" if bool(sudo[i]) else "false", {**case, "i": i})
+            add(f"sudor {C.f2h(EPS_PIT)} {C.f2h(censor)} {C.f2h(obs[i])} {C.flist(ens[i])}", "sudo",
                 "true" if bool(sudo[i]) else "false", {**case, "i": i})
             # oracle: pseudo flag; values on the grid are never within 1e-10 of the threshold unless equal to it
             want = (obs[i] <= censor) and bool(np.any(ens[i] <= censor))
@@ -759,7 +796,8 @@ def body(ctx):
         n = len(x)
         xa = np.array(x, dtype=float) if xa is None else xa
         valid = bool(np.all((xa >= 0) & (xa <= 1)))   # False for NaN
-        case = {"data": [repr(v) for v in x] if n <= 40 else {"n": n, "head": [repr(v) for v in x[:10]]}, "gen": kind, "bad": repr(bad)}
+        case = {"data": [repr(v) for v in x] if (n <= 40 or kind.startswith("near")) else {"n": n, "head": [repr(v) for v in x[:10]]},
+                "gen": kind, "bad": repr(bad)}
         if history is not None:
             case["history"] = history
         # AD
@@ -811,7 +849,7 @@ def body(ctx):
         hows = ORDERS if (n <= 12 or it % 5 == 0) else rng.sample(ORDERS, 2)
         for how in hows:
             xsh, _ = reorder(rng, x, how)
-            ocase = {**case, "order": how, "reordered": [repr(v) for v in xsh] if n <= 40 else "see data"}
+            ocase = {**case, "order": how, "reordered": [repr(v) for v in xsh] if (n <= 40 or kind.startswith("near")) else "see data"}
             ctx.hist["uniform/order=" + how] = ctx.hist.get("uniform/order=" + how, 0) + 1
             try:
                 cv2, cvp2 = real("cvm", ocase, metrics.cramer_von_mises_test, np.array(xsh))
@@ -832,9 +870,13 @@ def body(ctx):
 
     for it in range(ctx.scale(700, 7000)):
         n = rng.choice([1, 2, 3, 5, 10, 30, 100, 300]) if rng.random() < 0.7 else rng.randint(1, 300 if not ctx.thorough else 900)
-        kind = rng.choice(["uniform", "uniform", "ties", "edges", "beta", "sorted", "regular", "regular"])
+        kind = rng.choice(["uniform", "uniform", "ties", "edges", "beta", "sorted", "regular", "regular", "near", "near"])
         if kind == "uniform":
             x = [rng.uniform(1e-9, 1 - 1e-9) for _ in range(n)]
+        elif kind == "near":
+            # DISTINCT values closer than any plausible tolerance (1 ulp .. 1e-6): the uniformity clause puts no
+            # separation condition on the sample, so a sort or a sortedness check that is not exact shows here
+            x = near_clusters(rng, n)
         elif kind == "ties":
             x = [rng.randint(1, 19) / 20.0 for _ in range(n)]
         elif kind == "edges":
@@ -848,8 +890,8 @@ def body(ctx):
             rng.shuffle(x)
         else:
             x = sorted(rng.uniform(1e-6, 1 - 1e-6) for _ in range(n))
-        if rng.random() < 0.35:
-            x, okind = reorder(rng, x)
+        if rng.random() < (0.8 if kind == "near" else 0.35):
+            x, okind = reorder(rng, x, rng.choice(["reversed", "shuffle", "swap_last", None]) if kind == "near" else None)
             kind = kind + "+" + okind
         bad = None
         if rng.random() < 0.3:
@@ -1020,9 +1062,15 @@ def body(ctx):
         xa = np.array([rng.uniform(1e-6, 1 - 1e-6) for _ in range(n)])
         trail = []
         for step in range(rng.randint(2, 4)):
-            act = rng.choice(["same", "edit_value", "reverse_in_place", "sort_in_place", "rewrite", "copy"]) if step else "first"
+            act = rng.choice(["same", "edit_value", "near_value", "reverse_in_place", "sort_in_place", "rewrite", "copy"]) if step else "first"
             if act == "edit_value":
                 xa[rng.randrange(n)] = rng.uniform(1e-6, 1 - 1e-6)
+            elif act == "near_value":
+                # one value becomes a near-duplicate (distinct, 1 ulp .. 1e-7 away) of another one
+                i, k = rng.randrange(n), rng.randrange(n)
+                g = rng.choice([1e-7, 2e-9, 1e-12, "ulp"])
+                v = math.nextafter(float(xa[k]), rng.choice([0.0, 1.0])) if g == "ulp" else float(xa[k]) + rng.choice([-1, 1]) * g
+                xa[i] = min(max(v, 1e-9), 1 - 1e-9)
             elif act == "reverse_in_place":
                 xa[:] = xa[::-1].copy()
             elif act == "sort_in_place":
@@ -1038,6 +1086,279 @@ def body(ctx):
                 # the statistics are order free, so this is not a violation of the property; later steps use the array as it is
                 ctx.hist["history/uniform/input_changed_by_call"] = ctx.hist.get("history/uniform/input_changed_by_call", 0) + 1
             ctx.hist["history/uniform/" + act] = ctx.hist.get("history/uniform/" + act, 0) + 1
+
+    # ---------------- entry point pit: layouts of obs / ens, optional argument kind, NaN members, filter, both branches
+    KINDS = ["rank", "weak", "strict", "mean"]
+
+    def arr_tok(a):
+        """layout token + data token of an array handed to the code"""
+        a = np.asarray(a, dtype=float)
+        if a.ndim == 0:
+            return "scalar", C.flist([float(a)])
+        if a.ndim == 1:
+            return "vec", C.flist(a)
+        return f"mat:{a.shape[1]}", (rowstr(a) if a.shape[0] else "[]")
+
+    def ens_err(msg):
+        return ("obsNotOneD" if "not 1D" in msg else "lengthMismatch" if "first dim" in msg
+                else "noValidData" if "No valid data" in msg else "other:" + msg[:60])
+
+    for it in range(ctx.scale(400, 4000)):
+        n = rng.choice([1, 2, 3, 4, 6])
+        m = rng.choice([1, 2, 3, 4, 5])
+        step = rng.choice([1.0, 0.5])
+        ens = np.array([[rng.randint(0, 5) * step for _ in range(m)] for _ in range(n)])
+        obs = np.array([rng.randint(-1, 6) * step for _ in range(n)])
+        kind = rng.choice(KINDS)
+        random_ = rng.random() < 0.5
+        cst = rng.choice([0.0, 0.3, 0.5, 0.25, 0.7])
+        censor = rng.choice([0.0, step, 2 * step, -1.0])
+        shape = rng.choice(["vec", "vec", "col", "row", "obs2d", "scalar", "complete", "complete", "nan_members",
+                            "nan_members", "nan_obs", "nan_rows", "all_invalid", "length", "ens_vec"])
+        complete = shape in ("vec", "col", "row", "complete", "scalar", "ens_vec")
+        if shape == "nan_members":
+            for _ in range(rng.randint(1, max(1, n * m // 2))):
+                ens[rng.randrange(n), rng.randrange(m)] = np.nan
+        if shape == "nan_obs":
+            for i in rng.sample(range(n), rng.randint(1, n)):
+                obs[i] = np.nan
+        if shape == "nan_rows":
+            for i in rng.sample(range(n), rng.randint(1, n)):
+                ens[i, :] = np.nan
+        if shape == "all_invalid":
+            for i in range(n):
+                if rng.random() < 0.5:
+                    obs[i] = np.nan
+                else:
+                    ens[i, :] = np.nan
+        obs_in, ens_in = obs, ens
+        if shape == "col":
+            obs_in = obs[:, None]
+        elif shape == "row":
+            obs_in = obs[None, :]
+        elif shape == "obs2d":
+            r2, c2 = rng.choice([2, n + 1]), rng.choice([2, 3])
+            obs_in = np.array([[rng.randint(0, 5) * step for _ in range(c2)] for _ in range(r2)])
+        elif shape == "scalar":
+            obs_in, ens_in, obs, ens, n = float(obs[0]), ens[:1], obs[:1], ens[:1], 1
+        elif shape == "ens_vec":
+            # a vector is ONE forecast of len members for np.atleast_2d
+            obs_in, ens_in, obs, ens, n = obs[:1], ens[0], obs[:1], ens[:1], 1
+        elif shape == "length":
+            obs_in = np.append(obs, [1.0] * rng.randint(1, 2)) if rng.random() < 0.5 or n == 1 else obs[:-1]
+        seed = rng.randrange(2 ** 31)
+        case = {"obs": np.asarray(obs_in, dtype=float).tolist(), "ens": np.asarray(ens_in, dtype=float).tolist(), "random": random_,
+                "kind": kind, "cst": cst, "censor": censor, "npseed": seed, "gen": "entry/" + shape}
+        case = json.loads(json.dumps(case).replace("NaN", '"nan"'))
+        kept = [i for i in range(n) if obs[i] == obs[i] and not np.all(np.isnan(ens[i]))] if shape not in ("obs2d", "length") else []
+        np.random.seed(seed)
+        try:
+            pits, sudo = metrics.pit(obs_in, ens_in, random=random_, cst=cst, kind=kind, censor=censor)
+            pits = np.asarray(pits, dtype=float)
+            impl = "ok " + C.flist(pits) + " [" + ",".join("true" if b else "false" for b in sudo) + "]"
+        except ValueError as e:
+            pits = None
+            impl = "err " + ens_err(str(e))
+            if complete:
+                ctx.finding("pit/rejects_complete_forecasts", "pit rejects complete finite forecasts in a documented layout",
+                            {**case, "error": str(e)[:100]})
+        except Exception as e:  # noqa
+            pits = None
+            impl = "raised " + type(e).__name__
+            if complete:
+                ctx.finding("pit/raises", "pit raises on complete finite forecasts in a documented layout", {**case, "error": f"{type(e).__name__}: {str(e)[:100]}"})
+        # the jitter is drawn after the filter: one draw per kept forecast
+        np.random.seed(seed)
+        nk = len(kept)
+        dobs = np.random.uniform(-EPS_PIT, EPS_PIT, size=nk) if random_ else np.zeros(nk)
+        dens = np.random.uniform(-EPS_PIT, EPS_PIT, size=(nk, m)) if random_ else np.zeros((nk, m))
+        lo, od = arr_tok(obs_in)
+        le, ed = arr_tok(ens_in)
+        add(f"pitentry {1 if random_ else 0} {kind} {C.f2h(cst)} {C.f2h(censor)} {lo} {od} {le} {ed} {C.flist(dobs)} "
+            f"{rowstr(dens) if nk else '[]'}", "pitentry", impl, case)
+        ctx.count(("entry", seed, shape), pits is not None, f"entry/pit/{shape}/" + impl.split(" ")[0] + ("/random" if random_ else "/" + kind))
+        if pits is None or not complete:
+            continue
+        # oracle (complete data only: inside the quantifier): nothing dropped, range, monotone in the count for every kind,
+        # the layout of obs is irrelevant
+        if len(pits) != n:
+            ctx.finding("pit/drops_complete_forecasts", "pit drops forecasts that hold no NaN", {**case, "returned": len(pits)})
+            continue
+        if not np.all((pits >= 0) & (pits <= 1)) and cst <= 0.5:
+            ctx.finding("pit/out_of_range", "PIT value outside [0, 1]", {**case, "pits": pits.tolist()})
+        if not random_:
+            lefts = [int(np.sum(ens[i] < obs[i])) for i in range(n)]
+            ties = [int(np.sum(ens[i] == obs[i])) for i in range(n)]
+            for i in range(n):
+                add(f"pitkind {kind} {C.f2h(obs[i])} {C.flist(ens[i])}", "pit", float(pits[i]), {**case, "i": i})
+                for k2 in range(n):
+                    if ties[i] == ties[k2] and lefts[i] < lefts[k2] and not pits[i] < pits[k2]:
+                        ctx.finding("pit/not_increasing", "PIT does not increase strictly with the number of members below the observation",
+                                    {**case, "i": i, "k": k2, "counts": [lefts[i], lefts[k2]], "pits": [float(pits[i]), float(pits[k2])]})
+            want = [(obs[i] <= censor) and bool(np.any(ens[i] <= censor)) for i in range(n)]
+            if [bool(b) for b in sudo] != want:
+                ctx.finding("pit/pseudo_flag", "pseudo-PIT flag differs from (obs <= censor and some member <= censor)",
+                            {**case, "flags": [bool(b) for b in sudo]})
+            if shape in ("col", "row"):
+                np.random.seed(seed)
+                p2, s2 = metrics.pit(obs, ens, random=random_, cst=cst, kind=kind, censor=censor)
+                if not (np.array_equal(np.asarray(p2), pits) and np.array_equal(np.asarray(s2), np.asarray(sudo))):
+                    ctx.finding("pit/layout_dependent", "pit gives another answer for obs as [n,1] / [1,n] than for obs as [n]",
+                                {**case, "vector_layout": np.asarray(p2).tolist(), "this_layout": pits.tolist()})
+
+    # ---------------- entry point alpha: filter twice, pit's own default constant, test chosen by type, bad type
+    for it in range(ctx.scale(150, 1500)):
+        n = rng.choice([2, 3, 5, 10])
+        m = rng.choice([1, 2, 4])
+        ens = np.array([[float(rng.randint(0, 8)) for _ in range(m)] for _ in range(n)])
+        obs = np.array([float(rng.randint(-1, 9)) for _ in range(n)])
+        typ = rng.choice(["CV", "AD", "KS", "CV", "AD", "XX"])
+        shape = rng.choice(["complete", "complete", "nan_members", "nan_obs", "nan_rows", "col"])
+        if shape == "nan_members":
+            for _ in range(rng.randint(1, max(1, n * m // 3))):
+                ens[rng.randrange(n), rng.randrange(m)] = np.nan
+        if shape == "nan_obs":
+            for i in rng.sample(range(n), rng.randint(1, n - 1)):
+                obs[i] = np.nan
+        if shape == "nan_rows":
+            for i in rng.sample(range(n), rng.randint(1, n - 1)):
+                ens[i, :] = np.nan
+        obs_in = obs[:, None] if shape == "col" else obs
+        cst_arg = rng.choice([0.3, 0.0, 0.5])    # alpha does not hand its cst on to pit
+        seed = rng.randrange(2 ** 31)
+        case = json.loads(json.dumps({"obs": obs_in.tolist(), "ens": ens.tolist(), "type": typ, "cst": cst_arg, "npseed": seed,
+                                      "gen": "entry/alpha/" + shape}).replace("NaN", '"nan"'))
+        kept = [i for i in range(n) if obs[i] == obs[i] and not np.all(np.isnan(ens[i]))]
+        np.random.seed(seed)
+        try:
+            stat, pv, sudo = metrics.alpha(obs_in, ens, cst=cst_arg, type=typ)
+            impl = ("ok", float(stat), float(pv), [bool(b) for b in sudo], typ)
+            if not (0.0 <= pv <= 1.0):
+                ctx.finding(f"alpha/{typ}/pvalue_out_of_range", "alpha p-value outside [0, 1]", {**case, "stat": float(stat), "pvalue": float(pv)})
+        except ValueError as e:
+            msg = str(e)
+            impl = ("err", "badType" if "Expected test type" in msg else "adTest" if "ad_test returns" in msg else ens_err(msg))
+            if typ != "XX" and kept:
+                ctx.finding(f"alpha/{typ}/raises", "alpha raises on forecasts it should accept", {**case, "error": msg[:150]})
+        np.random.seed(seed)
+        nk = len(kept)
+        dobs = np.random.uniform(-EPS_PIT, EPS_PIT, size=nk)
+        dens = np.random.uniform(-EPS_PIT, EPS_PIT, size=(nk, m))
+        lo, od = arr_tok(obs_in)
+        le, ed = arr_tok(ens)
+        add(f"alphaentry {typ} {lo} {od} {le} {ed} {C.flist(dobs)} {rowstr(dens) if nk else '[]'}", "alphaentry", impl, case)
+        ctx.count(("entry/alpha", seed), impl[0] == "ok", f"entry/alpha/{typ}/{shape}/{impl[0]}")
+
+    # ---------------- entry point dscore: documented layouts of obs ([n], [n,1]) and sim ([n], [n,1], [n,p])
+    for it in range(ctx.scale(200, 2000)):
+        n = rng.choice([2, 3, 4, 6, 9])
+        m = rng.choice([1, 1, 2, 3])
+        lay_s = rng.choice(["vec", "col"]) if m == 1 else "mat"
+        lay_o = rng.choice(["vec", "col", "row"])
+        mismatch = rng.random() < 0.15
+        sim = np.array([[float(rng.randint(0, 6)) for _ in range(m)] for _ in range(n)])
+        no = n if not mismatch else rng.choice([n - 1, n + 1, n + 2])
+        obs = np.array(rng.sample(range(40), no), dtype=float)
+        obs_in = obs if lay_o == "vec" else obs[:, None] if lay_o == "col" else obs[None, :]
+        sim_in = sim[:, 0] if lay_s == "vec" else sim
+        case = {"obs": obs_in.tolist(), "sim": sim_in.tolist(), "eps": 1e-6, "gen": f"entry/dscore/{lay_o}/{lay_s}" + ("/mismatch" if mismatch else "")}
+        try:
+            D = float(metrics.dscore(obs_in, sim_in))
+            impl = ("ok", D)
+        except ValueError as e:
+            impl = ("err", "lengthMismatch")
+            if not mismatch:
+                ctx.finding("dscore/documented_layout_raises", "dscore raises on observations given as [n] / [n,1] / [1,n] and forecasts given "
+                            "as [n], [n,1] or [n,p] (documented layouts)", {**case, "error": str(e)[:120]})
+        except Exception as e:  # noqa
+            impl = ("raised", type(e).__name__)
+            if not mismatch:
+                ctx.finding("dscore/raises", "dscore raises on an input inside the property's quantifier", {**case, "error": f"{type(e).__name__}: {str(e)[:120]}"})
+        slay, sdat = ("vec", C.flist(sim_in)) if lay_s == "vec" else (f"mat:{m}", rowstr(sim))
+        add(f"dscoreentry {C.f2h(1e-6)} {C.flist(obs)} {slay} {sdat}", "dscoreentry", impl, case)
+        ctx.count(("entry/dscore", obs.tobytes(), sim.tobytes(), lay_o, lay_s), impl[0] == "ok", case["gen"].replace("entry/dscore", "entry/dscore/" + impl[0]))
+        if impl[0] == "ok" and not mismatch and (lay_o != "vec" or lay_s == "vec"):
+            try:
+                Dc = float(metrics.dscore(obs, sim))
+                if not (Dc == impl[1] or (Dc != Dc and impl[1] != impl[1])):
+                    ctx.finding("dscore/layout_dependent", "dscore gives another score for a documented layout than for obs [n], sim [n,p]",
+                                {**case, "D": impl[1], "D_canonical": Dc})
+            except Exception:  # noqa
+                pass
+
+    # ---------------- buffer histories of the kernel as operation lists: accepted calls, calls the kernel rejects (they must
+    # leave the buffers as they are), the caller scribbling into / replacing its buffers (other shapes trip the wrapper's
+    # assertions); every reply and the final content of both buffers are compared with the model's step function
+    for it in range(ctx.scale(150, 1500)):
+        n, m = rng.choice([2, 3, 4]), rng.choice([1, 2, 3])
+        fbuf, rbuf = np.zeros((n, n)), np.zeros(n)
+        toks, impl_rep, allshape = [], [], True
+        trail = []
+        for step in range(rng.randint(2, 6)):
+            act = rng.choice(["call", "call", "call_bad_eps", "call_nocol", "scribble", "reshape"]) if step else "call"
+            trail.append(act)
+            if act == "scribble":
+                fv, rv = float(rng.choice([7, -3, 0.5])), float(rng.choice([-3, 9, 0.25]))
+                fbuf, rbuf = np.full((n, n), fv), np.full(n, rv)
+                toks += ["scr", str(n), C.f2h(fv), C.f2h(rv)]
+                impl_rep.append("done")
+                continue
+            if act == "reshape":
+                k = n + rng.choice([1, 2])        # larger buffers only: nothing can be written out of bounds
+                fv, rv = float(rng.choice([7, -3])), float(rng.choice([-3, 9]))
+                fbuf, rbuf = np.full((k, k), fv), np.full(k, rv)
+                toks += ["scr", str(k), C.f2h(fv), C.f2h(rv)]
+                impl_rep.append("done")
+                allshape = False
+                continue
+            eps = 1e-6 if act != "call_bad_eps" else rng.choice([0.0, 1e-21, -1e-6])
+            mm = 0 if act == "call_nocol" else m
+            sim = np.array([[float(rng.randint(0, 4)) for _ in range(mm)] for _ in range(n)]).reshape(n, mm)
+            toks += ["call", C.f2h(eps), str(mm), rowstr(sim)]
+            before = (fbuf.copy(), rbuf.copy())
+            try:
+                ierr = c_hydrodiy_stat.ensrank(eps, sim, fbuf, rbuf)
+            except AssertionError:
+                ierr = None
+            if ierr is None:
+                impl_rep.append("assert")
+            elif ierr != 0:
+                impl_rep.append("code:" + codes.get(ierr, f"code{ierr}"))
+            else:
+                nn = fbuf.shape[0]
+                impl_rep.append("ok:[" + ";".join(",".join(C.f2h(fbuf[i, k]) for k in range(i + 1, nn)) for i in range(nn)) + "]:" + C.flist(rbuf))
+            if ierr != 0 and not (np.array_equal(before[0], fbuf) and np.array_equal(before[1], rbuf)):
+                # not a clause of the property: reported as a disagreement with the model (rejected calls leave the state)
+                ctx.disagree("C10/bufrun: a rejected call changed the caller's buffers", {"history": list(trail), "ierr": ierr})
+        impl = "|".join(impl_rep) + " final " + rowstr(fbuf) + " " + C.flist(rbuf) + (" hf=1" if allshape else "")
+        add("bufrun " + str(n) + " " + " ".join(toks), "bufrun", impl, {"n": n, "m": m, "history": trail, "gen": "history/ops"})
+        for a in trail:
+            ctx.hist["history/ops/" + a] = ctx.hist.get("history/ops/" + a, 0) + 1
+        ctx.count(("bufrun", tuple(toks)), True, "history/ops/" + ("same_shape" if allshape else "reshaped"))
+
+    # ---------------- excluded points: DISTINCT forecast values closer than the tie tolerance (outside the property's
+    # quantifier; `separation_needed` shows the hypothesis cannot be dropped). The real code is run there and only what the
+    # theorems state WITHOUT that hypothesis is looked at: the call is accepted, the ranks sum to n(n+1)/2
+    # (ensrank_ranks_sum), D is NaN or in [0, 1] (dscore_range). A deviation is reported as model/code disagreement.
+    for it in range(ctx.scale(150, 1500)):
+        n, m = rng.choice([2, 3, 5, 8]), rng.choice([1, 2, 3, 6])
+        eps = rng.choice([1e-6, 1e-6, 1e-4])
+        g = rng.choice([1e-9, 5e-9, 2e-8, 1e-7, 5e-7]) if eps == 1e-6 else rng.choice([1e-9, 1e-7, 1e-5, 5e-5])
+        K = np.array([[rng.randint(0, 6) for _ in range(m)] for _ in range(n)])
+        sim = rng.choice([0.0, 1.0, 100.0]) + K * g
+        obs = np.array(rng.sample(range(50), n), dtype=float)
+        ierr, fmat, ranks = call_ensrank(eps, sim)
+        try:
+            D = float(metrics.dscore(obs, sim, eps=eps))
+        except Exception as e:  # noqa
+            ctx.disagree("C10/excluded: dscore raises on forecasts closer than the tie tolerance", {"sim": sim.tolist(), "eps": eps, "error": str(e)[:100]})
+            continue
+        ok = ierr == 0 and float(np.sum(ranks)) == n * (n + 1) / 2 and (D != D or 0.0 <= D <= 1.0)
+        if not ok:
+            ctx.disagree("C10/excluded: on forecasts closer than the tie tolerance the kernel rejects the call, or its ranks do not "
+                         "sum to n(n+1)/2, or D is outside [0, 1] (hypothesis-free theorems of the model)",
+                         {"sim": sim.tolist(), "eps": eps, "ierr": int(ierr), "ranks": ranks.tolist(), "D": repr(D)})
+        ctx.count(("excluded", sim.tobytes(), eps), True, "excluded/near_ties/" + ("F_outside_unit" if np.any((fmat < 0) | (fmat > 1)) else "F_in_unit"))
 
     # ---------------- correspondence
     replies = lean.ask(reqs)
@@ -1075,6 +1396,35 @@ def body(ctx):
                 and C.close(C.h2f(toks[1]), impl[1], rel=1e-9, abs_=1e-10)
         elif kind == "checkens":
             ok = rep == impl
+        elif kind == "pitentry":
+            if impl.startswith("ok ") and rep.startswith("ok "):
+                _, ip, iflags = impl.split(" ")
+                _, mp, mflags = rep.split(" ")
+                iv, mv = C.parse_list(ip), C.parse_list(mp)
+                ok = iflags == mflags and len(iv) == len(mv) and all(
+                    (a == "nan" and b == "nan") or (a != "nan" and b != "nan" and C.close(C.h2f(a), C.h2f(b), rel=1e-15, ulps=2))
+                    for a, b in zip(iv, mv))
+            else:
+                ok = rep == impl
+        elif kind == "alphaentry":
+            if impl[0] == "ok":
+                toks = rep.split(" ")
+                ok = len(toks) == 4 and toks[0] == "ok" and toks[3] == "[" + ",".join("true" if b else "false" for b in impl[3]) + "]"
+                if ok and impl[4] != "KS":
+                    ok = toks[2] != "nan" and C.close(C.h2f(toks[1]), impl[1], rel=1e-12, abs_=1e-12) \
+                        and C.close(C.h2f(toks[2]), impl[2], rel=1e-9, abs_=1e-10)
+            else:
+                ok = rep == "err " + impl[1]
+        elif kind == "dscoreentry":
+            if impl[0] == "ok":
+                if rep == "ok none":
+                    ok = impl[1] != impl[1]
+                else:
+                    ok = rep.startswith("ok some ") and impl[1] == impl[1] and abs(C.h2f(rep.split(" ")[2]) - impl[1]) <= 1e-12
+            else:
+                ok = rep == "err " + impl[1]
+        elif kind == "bufrun":
+            ok = rep == impl if impl.endswith("hf=1") else rep.rsplit(" ", 1)[0] == impl
         elif kind == "cvmp":
             ok = rep.startswith("some ") and C.close(C.h2f(rep.split(" ")[1]), impl, rel=1e-12, abs_=1e-15)
         elif kind == "cvmq":
